@@ -366,11 +366,10 @@ namespace igris
         void erase(iterator first, iterator last)
         {
             size_t sz = last - first;
-            for (size_t i = 0; i < sz; ++i)
-            {
-                igris::destructor(first + i);
-            }
-            std::move(last, end(), first);
+            // the tail is shifted down by assignment onto live elements,
+            // then the sz elements left over at the end are destroyed
+            iterator newend = std::move(last, end(), first);
+            igris::array_destructor(newend, end());
             m_size -= sz;
         }
 
